@@ -313,14 +313,126 @@ def enum_tables(units):
                 if t in enums or ('amgcl::' + t) in enums:
                     eq = t if t in enums else 'amgcl::' + t
                     r = res.setdefault(eq, dict(enumerators=[x['n'] for x in enums[eq]['e']], where=None))
-                    r['out'], r['out_where'] = out_table(f), f.where()
+                    r['out'], r['out_where'] = (out_table_lookup(f) or out_table(f)), f.where()
             if f.q.endswith('operator>>') and len(f.params) == 2 and f.cfg:
                 t = strip_targs(u.type(f.decl(f.params[1]).get('t'))).replace('&', '').strip()
                 if t in enums or ('amgcl::' + t) in enums:
                     eq = t if t in enums else 'amgcl::' + t
                     r = res.setdefault(eq, dict(enumerators=[x['n'] for x in enums[eq]['e']], where=None))
-                    r['inp'], r['in_default'], r['in_where'] = in_table(f), None, f.where()
+                    r['inp'], r['in_default'], r['in_where'] = (in_table_lookup(f) or in_table(f)), None, f.where()
     return res
+
+
+def lookup_table(f, rfor):
+    """range-for over a static table of {enumerator, "literal"} records: [(enumerator, literal)] or None"""
+    u = f.unit
+    rng = unwrap(rfor.get('range'))
+    init = None
+    if rng is not None and rng['k'] == 'call' and 'fd' in rng and not rng.get('a'):
+        g = u.by_id.get(rng['fd'])
+        if g is not None and g.body is not None:
+            rets = g.returns()
+            if len(rets) == 1 and unwrap(rets[0]['e'])['k'] == 'ref':
+                d = unwrap(rets[0]['e'])['d']
+                for n in g.nodes.values():
+                    if n['k'] == 'decl':
+                        for v in n['v']:
+                            if v['d'] == d and v.get('init') is not None:
+                                init = v['init']
+    elif rng is not None and rng['k'] == 'ref':
+        for n in f.nodes.values():
+            if n['k'] == 'decl':
+                for v in n['v']:
+                    if v['d'] == rng['d'] and v.get('init') is not None:
+                        init = v['init']
+        if init is None:
+            gi = u.decls[rng['d']] if isinstance(rng['d'], int) and rng['d'] < len(u.decls) else None
+            init = gi.get('init') if isinstance(gi, dict) else None
+    if init is None:
+        return None
+    entries = []
+
+    def rec(n):
+        n = unwrap(n)
+        if n is None:
+            return
+        if n['k'] in ('initlist', 'ctor'):
+            kids = [unwrap(a) for a in n.get('a', [])]
+            en = [k_ for k_ in kids if k_ is not None and k_['k'] == 'ref' and u.decls[k_['d']].get('k') == 'enumc']
+            li = [k_ for k_ in kids if k_ is not None and k_['k'] == 'lit' and k_.get('t') == 'str']
+            if len(en) == 1 and len(li) == 1 and len(kids) == 2:
+                entries.append((en[0]['n'], li[0]['v']))
+                return
+            for k_ in kids:
+                rec(k_)
+    rec(init)
+    return entries or None
+
+
+def member_is_text(f, m):
+    t = f.unit.type(f.unit.decls[m['d']].get('t')) if isinstance(m.get('d'), int) else ''
+    return 'char' in t or 'string' in t
+
+
+def out_table_lookup(f):
+    """table-driven operator<<: for (t : table) if (t.value == e) return os << t.name;  -> {enumerator: {literal}} or None"""
+    for L in [n for n in f.nodes.values() if n['k'] == 'rfor']:
+        tab = lookup_table(f, L)
+        if not tab:
+            continue
+        lv = L['var']['d']
+        ok = False
+        for n in walk(L['b']):
+            if n['k'] == 'if':
+                c = unwrap(n['c'])
+                if c['k'] == 'bin' and c['op'] == '==':
+                    sides = [unwrap(c['x']), unwrap(c['y'])]
+                    mems = [x for x in sides if x['k'] == 'mem' and unwrap(x['b'])['k'] == 'ref' and unwrap(x['b'])['d'] == lv and not member_is_text(f, x)]
+                    prm = [x for x in sides if x['k'] == 'ref' and f.param_index(x['d']) == 1]
+                    streamed = [x for x in walk(n['t']) if x['k'] == 'mem' and unwrap(x['b'])['k'] == 'ref' and unwrap(x['b'])['d'] == lv and member_is_text(f, x)]
+                    if mems and prm and streamed and any(x['k'] == 'ret' for x in walk(n['t'])):
+                        ok = True
+        if ok:
+            table = {}
+            for e, lit in tab:
+                table.setdefault(e, set()).add(lit)
+            return table
+    return None
+
+
+def in_table_lookup(f):
+    """table-driven operator>>: for (t : table) if (val == t.name) { e = t.value; return in; }  throw ...;"""
+    for L in [n for n in f.nodes.values() if n['k'] == 'rfor']:
+        tab = lookup_table(f, L)
+        if not tab:
+            continue
+        lv = L['var']['d']
+        ok = False
+        for n in walk(L['b']):
+            if n['k'] == 'if':
+                c = unwrap(n['c'])
+                if c['k'] == 'bin' and c['op'] == '==':
+                    names = [x for x in walk(c) if x['k'] == 'mem' and unwrap(x['b'])['k'] == 'ref' and unwrap(x['b'])['d'] == lv and member_is_text(f, x)]
+                    assigns = [x for x in walk(n['t']) if x['k'] == 'bin' and x['op'] == '=' and unwrap(x['x'])['k'] == 'ref' and f.param_index(unwrap(x['x'])['d']) == 1
+                               and unwrap(x['y'])['k'] == 'mem' and unwrap(unwrap(x['y'])['b'])['k'] == 'ref' and unwrap(unwrap(x['y'])['b'])['d'] == lv and not member_is_text(f, unwrap(x['y']))]
+                    leaves = any(x['k'] in ('ret', 'break') for x in walk(n['t']))
+                    if names and assigns and leaves:
+                        ok = True
+        if not ok:
+            continue
+        table = {}
+        for e, lit in tab:
+            table.setdefault(lit, set()).add(e)
+        # the all-false path: what follows the loop
+        inloop = {x['i'] for x in walk(L)}
+        after = [n for n in f.nodes.values() if n['i'] not in inloop and n['i'] > L['i']]
+        throws = any(n['k'] == 'throw' and not any(a['k'] in ('if', 'for', 'while', 'rfor') for a in f.ancestors(n)) for n in after)
+        if any(x['k'] == 'break' for x in walk(L['b'])):
+            # found-flag forms are not modelled: fall back to the path enumeration
+            return None
+        table['<none>'] = {'<throw>' if throws else '<nothing>'}
+        return table
+    return None
 
 
 def paths(cfg, limit=4000):
